@@ -178,7 +178,7 @@ class IORecord:
 
     def rwBool(self, val):
         """Read or write a boolean value from an integer."""
-        val = False if not isinstance(val, bool) else val
+        val = False if not isinstance(val, (bool, np.bool_)) else val
         return bool(self.rwInt(int(val)))
 
     def rwFloat(self, val):
